@@ -106,3 +106,11 @@ Definition ELF_CLASS_64 : Z := 2.
 Definition ELF_DATA_2LSB : Z := 1.
 Definition ELF_DATA_2MSB : Z := 2.
 Definition elf_header_branches : list (Z * Z * Z * Z * Z * Z * Z) := [(1, 1, 52, 52, 52, 32, 0); (1, 2, 52, 52, 52, 32, 1); (2, 1, 64, 64, 64, 64, 0); (2, 2, 64, 64, 64, 64, 1)].
+
+(* ---- object.c yr_object_dict_set_item: capacity of the block and the free counter
+   first insertion: count = 64; free = count; used = 0
+   full (free == 0): count = dict->items->used * 2; free = dict->items->used
+   every insertion: objects[used] = item; used++; free-- *)
+Definition dict_initial_count : Z := 64.
+Definition dict_grow (used : Z) : Z := (used * 2).
+Definition dict_free_after_grow (used count : Z) : Z := used.
